@@ -270,14 +270,28 @@ func histories(r *lib.Run, rng *lib.Rand) (files []savedFile) {
 	if r.Thorough() {
 		nh = 400
 	}
-	for hi := 0; hi < nh; hi++ {
+	// "short" histories (one client, one lease, nobody captured) after the random ones: their renew/offer case
+	// lines stay under 400 characters, the size limit of the in-kernel (vm_compute) replay sample of bin/vcheck
+	nshort := 40
+	if r.Thorough() {
+		nshort = 150
+	}
+	for hi := 0; hi < nh+nshort; hi++ {
+		short := hi >= nh
 		c := stdCfg
-		if rng.Chance(25) {
+		if rng.Chance(25) && !short {
 			c = cfgT{nic: stdNIC, netfilter: netip.MustParsePrefix("192.168.0.65/26"), dns: netip.Addr{}}
 		}
 		// designated histories reproduce the recorded defect classes on every run; the others avoid them
 		special := ""
-		switch hi % 8 {
+		if short {
+			special = "short"
+		}
+		sel := hi % 8
+		if short {
+			sel = -1
+		}
+		switch sel {
 		case 3:
 			special = "offsubnet" // DESIGN 11 #22: off-subnet requested address is offered and ACKed
 		case 4:
@@ -288,7 +302,7 @@ func histories(r *lib.Run, rng *lib.Rand) (files []savedFile) {
 		var captured []net.HardwareAddr
 		isCaptured := map[string]bool{}
 		for i, m := range macUniv {
-			if rng.Chance(30) || (special == "captured-outside-net2" && i == 0) {
+			if (rng.Chance(30) && !short) || (special == "captured-outside-net2" && i == 0) {
 				captured = append(captured, m)
 				isCaptured[lib.Hex(m)] = true
 			}
@@ -315,10 +329,19 @@ func histories(r *lib.Run, rng *lib.Rand) (files []savedFile) {
 			if special == "cid0" && i == 0 {
 				cl.cid, cl.cid0 = nil, true
 			}
+			if short {
+				cl.cid = []byte{byte(0xa0 + rng.Intn(16))}
+			}
 			clients = append(clients, cl)
+			if short {
+				break
+			}
 		}
 		acked := map[string]bindingT{} // by client key (hex): what the harness saw ACKed
 		depth := 3 + rng.Intn(10)
+		if short {
+			depth = 1
+		}
 		classes := map[string]bool{}
 		for step := 0; step < depth; step++ {
 			cl := clients[rng.Intn(len(clients))]
@@ -425,7 +448,7 @@ func histories(r *lib.Run, rng *lib.Rand) (files []savedFile) {
 		text, _ := os.ReadFile(fname)
 		capTok2, cap2 := capTok, captured
 		sameCapture := true
-		if rng.Chance(25) {
+		if rng.Chance(25) && !short {
 			cap2 = nil
 			for _, m := range macUniv {
 				if rng.Chance(50) {
